@@ -433,4 +433,70 @@ example : (23 : Nat) < 24 ∧ (59 : Nat) < 60 ∧ (999 : Nat) < 1000 ∧ (863999
 example : ofMillis (toMillis 23 59 59 999) = (23, 59, 59, 999) ∧
     toMillis 23 59 59 999 = 86399999 := by decide
 
+/-! ## 9. date − date (whole days between two date-times) -/
+
+/-- a date-time: calendar date and time of day in milliseconds -/
+def stampT (p : Nat × Nat × Nat) (t : Nat) : Int := stamp p.1 p.2.1 p.2.2 t
+
+/-- `(d + k) - d = k` for every date-time `d` and every whole number of days `k` that stays in range:
+    adding whole days keeps the time of day, so the stamps differ by exactly `k` days. -/
+theorem diffDays_addDays {y m d t : Nat} {k : Int} (_hv : validDate y m d = true)
+    (hk : 2 ≤ (toOaDay y m d : Int) + k) :
+    diffDays (stampT (addDays y m d k) t) (stamp y m d t) = k := by
+  obtain ⟨_, h⟩ := addDays_spec hk
+  unfold stampT stamp diffDays msPerDay
+  unfold oaOf at h
+  generalize addDays y m d k = r at h
+  obtain ⟨y', m', d'⟩ := r
+  simp only at h ⊢
+  rw [h]
+  split <;> omega
+
+/-- `d - (d + k) = -k` -/
+theorem diffDays_addDays_rev {y m d t : Nat} {k : Int} (_hv : validDate y m d = true)
+    (hk : 2 ≤ (toOaDay y m d : Int) + k) :
+    diffDays (stamp y m d t) (stampT (addDays y m d k) t) = -k := by
+  obtain ⟨_, h⟩ := addDays_spec hk
+  unfold stampT stamp diffDays msPerDay
+  unfold oaOf at h
+  generalize addDays y m d k = r at h
+  obtain ⟨y', m', d'⟩ := r
+  simp only at h ⊢
+  rw [h]
+  split <;> omega
+
+/-- antisymmetry: `a - b = -(b - a)` (truncation toward zero, unlike floor division) -/
+theorem diffDays_antisymm (a b : Int) : diffDays a b = - diffDays b a := by
+  unfold diffDays msPerDay
+  split <;> split <;> omega
+
+theorem diffDays_self (a : Int) : diffDays a a = 0 := by
+  unfold diffDays msPerDay
+  simp
+
+/-- the difference counts whole days: it is the unique `q` with `q` days ≤ |a − b| < `q + 1` days, signed -/
+theorem diffDays_spec {a b : Int} (h : b ≤ a) :
+    diffDays a b * msPerDay ≤ a - b ∧ a - b < (diffDays a b + 1) * msPerDay := by
+  unfold diffDays msPerDay
+  split <;> omega
+
+/-- two date-times on the same calendar day are zero days apart; one at the same time of day on the next
+    calendar day is exactly one day later -/
+theorem diffDays_same_day {y m d t t' : Nat} (ht : t < msPerDay) (ht' : t' < msPerDay) :
+    diffDays (stamp y m d t) (stamp y m d t') = 0 := by
+  unfold diffDays stamp msPerDay at *
+  split <;> omega
+
+theorem diffDays_nextDay {y m d t : Nat} (hv : validDate y m d = true) :
+    diffDays (stampT (nextDay y m d) t) (stamp y m d t) = 1 := by
+  have h := toOaDay_nextDay hv
+  unfold stampT stamp diffDays msPerDay
+  generalize nextDay y m d = r at h
+  obtain ⟨y', m', d'⟩ := r
+  simp only at h ⊢
+  split <;> omega
+
+example : diffDays (stamp 1990 7 31 21833000) (stamp 1987 11 4 21833000) = 1000 := by decide +kernel
+example : diffDays (stamp 1987 11 4 0) (stamp 1987 11 5 1) = -1 ∧ diffDays (stamp 1987 11 4 1) (stamp 1987 11 5 0) = 0 := by decide +kernel
+
 end Ckl.C17
